@@ -25,6 +25,7 @@ OBS_BODY = """
 <xsl:attribute-set name="as"><xsl:attribute name="s"><xsl:value-of select="$g"/></xsl:attribute></xsl:attribute-set>
 <xsl:template name="rec"><xsl:param name="n"/><xsl:if test="$n &gt; 0"><i><xsl:value-of select="$n"/></i><xsl:call-template name="rec"><xsl:with-param name="n" select="$n - 1"/></xsl:call-template></xsl:if></xsl:template>
 <xsl:template match="b" mode="m"><b><xsl:apply-templates select="c" mode="m"/></b></xsl:template>
+<xsl:template match="w" mode="w"><xsl:value-of select="."/></xsl:template>
 <xsl:template match="c" mode="m"><xsl:value-of select="position()"/>/<xsl:value-of select="last()"/>;</xsl:template>
 <xsl:template name="observe">
   <o p1="{$p1}" p2="{$p2}" p3="{$p3}" g="{$g}" t="{count(//text())}" xsl:use-attribute-sets="as">
@@ -39,7 +40,10 @@ OBS_BODY = """
    <s1><xsl:for-each select="//c"><xsl:sort select="string-length(.)"/><xsl:value-of select="."/>,</xsl:for-each></s1>
    <s2><xsl:for-each select="//a|//c"><xsl:sort select="name()" order="descending"/><xsl:value-of select="."/>,</xsl:for-each></s2>
    <s3><xsl:apply-templates select="//c" mode="m"><xsl:sort select="count(*)" data-type="number"/></xsl:apply-templates></s3>
-   <fn><xsl:value-of select="format-number(1234.5, '#,##0.00')"/></fn>
+   <s4><xsl:for-each select="//w"><xsl:sort select="." lang="sv"/><xsl:value-of select="."/></xsl:for-each>|<xsl:for-each select="//w"><xsl:sort select="." lang="fr" order="descending"/><xsl:value-of select="."/></xsl:for-each>|<xsl:for-each select="//w"><xsl:sort select="."/><xsl:value-of select="."/></xsl:for-each></s4>
+   <nn><xsl:for-each select="//*"><xsl:number level="any" count="*"/>,</xsl:for-each></nn>
+   <na><xsl:for-each select="//a"><xsl:number level="any" count="a|c" from="b"/>.</xsl:for-each></na>
+   <fn><xsl:value-of select="format-number(1234.5, '#,##0.00')"/>|<xsl:value-of select="format-number(-0.126, '0.0#%')"/></fn>
    <xsl:variable name="rtf"><r><xsl:copy-of select="doc/a"/></r></xsl:variable>
    <xsl:copy-of select="$rtf"/>
    <xsl:call-template name="rec"><xsl:with-param name="n" select="3"/></xsl:call-template>
@@ -81,6 +85,13 @@ NEST = ('<out><xsl:for-each select="//c"><xsl:sort select="." data-type="number"
         '<xsl:copy-of select="$v"/><xsl:comment><xsl:value-of select="count(key(\'kc\', .))"/></xsl:comment>'
         '</xsl:for-each></xsl:for-each></out>')
 
+
+def _coll(lang, co, order=""):
+    attrs = ' lang="%s"' % lang + (' case-order="%s"' % co if co else "") + (' order="%s"' % order if order else "")
+    return _sheet(OUT_XML, "", '<out l="%s" c="%s"><xsl:for-each select="//w"><xsl:sort select="."%s/><xsl:value-of select="."/></xsl:for-each>|'
+                  '<xsl:apply-templates select="//w" mode="w"><xsl:sort select="translate(., \'ABC\', \'abc\')"%s/><xsl:sort select="."%s/></xsl:apply-templates>'
+                  '<xsl:call-template name="observe"/></out>' % (lang, co, attrs, attrs, attrs))
+
 SHEETS = {
     # ---- observers
     "obs": _sheet(OUT_XML, "", '<out><xsl:call-template name="observe"/></out>'),
@@ -109,6 +120,24 @@ SHEETS = {
     "char_comment": _sheet('<xsl:output method="xml" encoding="US-ASCII" omit-xml-declaration="yes"/>', "", '<out><xsl:call-template name="observe"/><xsl:comment>&#233;</xsl:comment><xsl:processing-instruction name="pi">&#233;</xsl:processing-instruction></out>'),
     "recurse": _sheet(OUT_XML, '<xsl:template name="inf"><xsl:param name="n"/><xsl:if test="$n &lt; 300"><d><xsl:call-template name="inf"><xsl:with-param name="n" select="$n + 1"/></xsl:call-template></d></xsl:if><xsl:if test="$n = 300">' + MSG + '</xsl:if></xsl:template>',
                       '<out><xsl:call-template name="inf"><xsl:with-param name="n" select="0"/></xsl:call-template></out>'),
+    # collation: one collator per lang is cached for the transformer's life; case-order is mutable state of it
+    "coll_sv_upper": _coll("sv", "upper-first"), "coll_sv_lower": _coll("sv", "lower-first"), "coll_sv": _coll("sv", ""),
+    "coll_fr_upper": _coll("fr", "upper-first"), "coll_fr": _coll("fr", ""), "coll_de_lower_desc": _coll("de", "lower-first", "descending"),
+    "coll_de": _coll("de", ""), "coll_en_upper": _coll("en", "upper-first"), "coll_en": _coll("en", ""),
+    # xsl:number level="any" failing inside the count / from pattern after some nodes were already collected
+    "num_any_err": _sheet(OUT_XML, "", '<out><xsl:for-each select="//a"><xsl:sort select="@id" data-type="number" order="descending"/>'
+                          '<n><xsl:number level="any" count="a[@ok or key(\'no-such-key\', @id)]"/></n></xsl:for-each></out>'),
+    "num_from_err": _sheet(OUT_XML, "", '<out><xsl:for-each select="//c"><n><xsl:number level="any" count="c|a" from="b[@k = 1 or key(\'no-such-key\', @k)]"/></n></xsl:for-each>'
+                           '<xsl:for-each select="//w"><n><xsl:number level="any" count="*" from="a[key(\'no-such-key\', @id)]"/></n></xsl:for-each></out>'),
+    "num_any_all": _sheet(OUT_XML, "", '<out><xsl:for-each select="//*"><xsl:number level="any" count="*"/>,</xsl:for-each>|'
+                          '<xsl:for-each select="//a"><xsl:number level="any" count="a"/>,</xsl:for-each><xsl:call-template name="observe"/></out>'),
+    # format-number with decimal-formats: the ICU formatters are cached per symbol set for the transformer's life
+    "fmt_df1": _sheet(OUT_XML, '<xsl:decimal-format name="df" decimal-separator="," grouping-separator="."/>',
+                      '<out><xsl:value-of select="format-number(1234567.891, \'#.##0,00\', \'df\')"/>|<xsl:value-of select="format-number(0.5, \'0,0%\', \'df\')"/><xsl:call-template name="observe"/></out>'),
+    "fmt_df2": _sheet(OUT_XML, '<xsl:decimal-format name="df" decimal-separator="!" grouping-separator="_" minus-sign="~" percent="P"/>',
+                      '<out><xsl:value-of select="format-number(-1234567.891, \'#_##0!00\', \'df\')"/>|<xsl:value-of select="format-number(0.5, \'0!0P\', \'df\')"/><xsl:call-template name="observe"/></out>'),
+    "fmt_dfdefault": _sheet(OUT_XML, '<xsl:decimal-format decimal-separator="," grouping-separator="."/>',
+                            '<out><xsl:value-of select="format-number(1234567.891, \'#.##0,00\')"/></out>'),
     # failures INSIDE xsl:sort processing (after one or more keys were set up), xsl:key building, xsl:number, format-number,
     # document() in the middle of a for-each
     "sort_avt": _sheet(OUT_XML, "", '<out><xsl:for-each select="//c"><xsl:sort select="." data-type="number" order="descending"/>'
@@ -147,15 +176,16 @@ SOURCES = {
     "d1": '<doc><a id="1">x</a><a id="2">y</a> <b k="1"><c>3</c><c>1</c> <c>2</c></b></doc>',
     "d2": '<doc><b k="7"><c>8</c><c>1</c></b><a id="9">p</a>\n<a id="2">q</a><b><c>1</c></b></doc>',
     "d3": '<doc xml:space="preserve"> <a id="2">only</a> </doc>',
+    "d4": '<doc><a id="1">x</a><a id="2" ok="1">y</a><b k="1"><c>3</c><c>1</c></b><a id="3" ok="1">z</a><w>b</w><w>A</w><w>a</w><w>B</w><w>c</w><w>C</w><w>\u00e4</w><w>z</w></doc>',
     "dbad": '<doc><a></doc>',
 }
 BAD_SOURCES = {"dbad"}
 
 GOOD_SHEETS = sorted(k for k in SHEETS if k not in BAD_SHEETS)
-OBSERVERS = [k for k in GOOD_SHEETS if k.startswith("obs") or k == "nest_ok"]
+OBSERVERS = [k for k in GOOD_SHEETS if k.startswith(("obs", "coll_", "fmt_df")) or k in ("nest_ok", "num_any_all")]
 ABORTERS = [k for k in GOOD_SHEETS if k not in OBSERVERS]
 # (stylesheet, source) pairs for the memory probe: live bytes of the transformer's MemoryManager must not grow per call
-LEAK_PROBES = [("obs", "d1"), ("sort_avt", "d1"), ("sort_fnerr", "d2"), ("key_err", "d1"), ("msg_deep", "d1"), ("xperr_deep", "d1"), ("msg_rtf", "d2"), ("nest_abort", "d2"), ("enc_unknown", "d1")]
+LEAK_PROBES = [("obs", "d1"), ("num_any_err", "d4"), ("coll_sv_upper", "d4"), ("sort_avt", "d1"), ("sort_fnerr", "d2"), ("key_err", "d1"), ("msg_deep", "d1"), ("xperr_deep", "d1"), ("msg_rtf", "d2"), ("nest_abort", "d2"), ("enc_unknown", "d1")]
 GOOD_SOURCES = sorted(k for k in SOURCES if k not in BAD_SOURCES)
 
 PARAM_EXPRS = ["'v1'", "'boom'", "'ascending'", "'descending'", "'text'", "'upper-first'", "3", "1+2", "'x_y'", "concat('a','b')", "''", "//no/such", "2*3"]
@@ -167,7 +197,7 @@ CONFIGS = [("indent", ["0", "2", "7"]), ("enc", ["UTF-8", "ISO-8859-1", "US-ASCI
            ("omitmeta", ["0", "1", "2"]), ("plistener", ["0", "1"]), ("tlistener", ["0", "1"])]
 KEYS = ["p1", "p2", "p3", "unused"]
 FUNCS = ["f1", "f2"]
-NSLOT = 3
+NSLOT = 4
 
 
 def defs():
@@ -252,6 +282,50 @@ def gen_history(r, maxops):
     return ops
 
 
+def gen_session(r, maxops):
+    """a history that compiles a few stylesheets and parses one or two sources ONCE and then keeps transforming with them
+    (most state that can leak is keyed by the stylesheet or the source document), with parameter / configuration changes
+    and an occasional text transformation in between"""
+    ops = []
+    nsh = r.range(2, NSLOT)
+    chosen = [r.choice(ABORTERS)] + [r.choice(OBSERVERS) for _ in range(nsh - 1)]
+    if r.chance(1, 2):
+        chosen[-1] = r.choice(ABORTERS)
+    chosen = r.shuffle(chosen)
+    for i, sh in enumerate(chosen):
+        ops.append("compile %d %s ok" % (i, sh))
+    srcs = [r.choice(["d4", "d4", "d1", "d2", "d3"])]
+    if r.chance(1, 2):
+        srcs.append(r.choice(GOOD_SOURCES))
+    for i, so in enumerate(srcs):
+        ops.append("parse %d %s ok" % (i, so))
+    n = r.range(4, maxops)
+    while len(ops) < n + len(chosen) + len(srcs):
+        k = r.weighted([("transform", 14), ("setexpr", 3), ("setnum", 1), ("setobj", 1), ("clear", 1), ("config", 2), ("install", 1),
+                        ("uninstall", 1), ("transformsrc", 2)])
+        seed = r.below(100000)
+        if k == "transform":
+            ops.append("transform %d %d %d" % (r.below(len(chosen)), r.below(len(srcs)), seed))
+        elif k == "transformsrc":
+            ops.append("transformsrc %s %s %d" % (r.choice(GOOD_SHEETS), r.choice(srcs), seed))
+        elif k == "setexpr":
+            ops.append("setexpr %s %s" % (r.choice(KEYS), r.choice(PARAM_EXPRS)))
+        elif k == "setnum":
+            ops.append("setnum %s %s" % (r.choice(KEYS), r.choice(PARAM_NUMS)))
+        elif k == "setobj":
+            ops.append("setobj %s %s" % (r.choice(KEYS), r.choice(PARAM_OBJS)))
+        elif k == "clear":
+            ops.append("clearparams")
+        elif k == "config":
+            cn, vs = r.choice(CONFIGS)
+            ops.append("config %s %s" % (cn, r.choice(vs)))
+        elif k == "install":
+            ops.append("install %s" % r.choice(FUNCS))
+        elif k == "uninstall":
+            ops.append("uninstall %s" % r.choice(FUNCS))
+    return ops
+
+
 # minimised past failures / design candidates; run first
 CORPUS = [
     # F1: last write does not win when the same key is set as expression, then as number
@@ -288,5 +362,17 @@ CORPUS = [
     ("abort-in-key-number-format", ["compile 0 obs ok", "parse 0 d1 ok", "parse 1 d2 ok", "transformsrc key_err d1 1", "transform 0 0 2", "transformsrc num_err d2 3",
                                     "transform 0 1 4", "transformsrc fmt_err d1 5", "transform 0 0 6", "transformsrc doc_foreach d2 7", "transform 0 1 8",
                                     "transformsrc num_group d1 9", "transform 0 0 10"]),
+    # break C of the second seeding: case-order left on the cached per-lang collator
+    ("collator-case-order", ["compile 0 coll_sv_upper ok", "compile 1 coll_sv ok", "compile 2 coll_sv_lower ok", "parse 0 d4 ok",
+                             "transform 1 0 1", "transform 0 0 2", "transform 1 0 3", "transform 2 0 4", "transform 1 0 5", "transform 0 0 6",
+                             "transformsrc coll_fr_upper d4 7", "transformsrc coll_fr d4 8", "transformsrc coll_de_lower_desc d4 9", "transformsrc coll_de d4 10",
+                             "transformsrc obs d4 11", "transformsrc coll_en_upper d4 12", "transformsrc coll_en d4 13", "transformsrc obs d4 14"]),
+    # break D of the second seeding: CountersTable scratch list left behind by a failing count pattern, same parsed source
+    ("counters-after-pattern-error", ["compile 0 num_any_err ok", "compile 1 num_any_all ok", "compile 2 num_from_err ok", "compile 3 obs ok", "parse 0 d4 ok",
+                                      "transform 1 0 1", "transform 0 0 2", "transform 1 0 3", "transform 2 0 4", "transform 1 0 5", "transform 3 0 6",
+                                      "transform 0 0 7", "transform 3 0 8"]),
+    ("decimal-formats", ["compile 0 fmt_df1 ok", "compile 1 fmt_df2 ok", "compile 2 obs ok", "parse 0 d1 ok", "transform 2 0 1", "transform 0 0 2", "transform 2 0 3",
+                         "transform 1 0 4", "transform 0 0 5", "transformsrc fmt_dfdefault d1 6", "transform 2 0 7", "transformsrc fmt_err d1 8", "transform 1 0 9",
+                         "transform 2 0 10"]),
     ("destroy-twice", ["compile 0 obs ok", "dsheet 0", "dsheet 0", "dsource 1", "parse 1 d1 ok", "dsource 1", "dsource 1"]),
 ]
